@@ -18,6 +18,7 @@ import traceback
 
 sys.path.insert(0, os.path.dirname(os.path.abspath(__file__)))
 import common  # noqa: E402
+sys.path.insert(0, common.REPO)  # the working tree under test (default /repo) wins over any installed copy
 from common import Ctx, InfraError  # noqa: E402
 
 os.environ.setdefault(common.GUARD, "1")
@@ -92,7 +93,7 @@ def build_and_audit(prop: str, tier: str):
         thms, alog, rc = common.audit_module(mod)
         if rc != 0:
             info["broken"].append({"obligation": f"axiom audit {mod}", "log": alog[-3000:]})
-        info["theorems"] = thms
+        info["theorems"] = {k: v for k, v in thms.items() if any(k == d or k.endswith("." + d) for d in declared)}
         done = 0
         for name in declared:
             full = [k for k in thms if k == name or k.endswith("." + name)]
